@@ -1,0 +1,31 @@
+//go:build verif
+
+package constraint
+
+// Verification hooks (build tag verif): read-only accessors for the private
+// fields the checker's behaviour depends on. Used by the dump of the compiled
+// schema (notations/jschema/verif_hook_checker.go).
+
+// VerifSources returns the source tokens of the enum items, in order.
+func (c Enum) VerifSources() [][]byte {
+	out := make([][]byte, 0, len(c.items))
+	for _, it := range c.items {
+		out = append(out, []byte(it.src))
+	}
+	return out
+}
+
+// VerifNodeValue returns the EXAMPLE token the const rule compares with.
+func (c Const) VerifNodeValue() []byte { return []byte(c.nodeValue) }
+
+// VerifRaw returns the source token of the bound.
+func (c Min) VerifRaw() []byte { return []byte(c.rawValue) }
+
+// VerifRaw returns the source token of the bound.
+func (c Max) VerifRaw() []byte { return []byte(c.rawValue) }
+
+// VerifExpression returns the (decoded) pattern.
+func (c Regex) VerifExpression() string { return c.expression }
+
+// VerifValue returns the precision.
+func (c Precision) VerifValue() uint { return c.value }
